@@ -70,7 +70,7 @@ def handleGcd : Handler
   -- model-only query (not answered by the harness): branches taken by the main loop
   | ["gcd_trace", N, ext, a, b] => do
     let N ← okN N; let a ← parseU N a; let b ← parseU N b
-    let tr := branchTrace N (ext = "1") (gcdFuel N) (initSt a b)
+    let tr := branchTrace N N (ext = "1") (gcdFuel N) (initSt a b)
     some (showList (tr.map showBranch))
   -- `ZmodN::gcd(x)` = big_gcd::<8>(n, x) (the Montgomery representative is used as it is)
   | ["gcd_zn_gcd", n, xm] => do
